@@ -643,7 +643,7 @@ def opt_props_ids(F, R):
     after = sorted(v for bi, v in puts if bi not in loop)
     R.ob('C01.encode-schema', 'encode_opt_props|identifiers', in_loop == [0x26] and after == [0x1F], 'user-property loop writes %s, reason string part writes %s' % (in_loop, after), b.loc(0))
     ub = F.one(r'impl utils::Encode for std::vec::Vec<\(ntex_bytes::ByteString, ntex_bytes::ByteString\)>>::encode$')
-    ids = sorted(const_val(t['args'][1]) for bi, t in ub.calls() if (callee_name(t) or '').endswith('put_u8'))
+    ids = sorted(const_val(t['args'][1]) for bi, t, cl in F.sites_in_family(ub, r'put_u8$'))   # (the loop body may be a closure: `iter().try_for_each(|p| ..)`)
     R.ob('C01.encode-schema', 'UserProperties::encode|identifier', ids == [0x26], 'writes %s' % ids, ub.loc(0))
     ab = F.bodies.get('v5::codec::packet::ack_props::encode')
     calls = [callee_name(t) or '' for _, t in ab.calls()]
